@@ -533,7 +533,7 @@ func cmdRandom(args []string) {
 				c.Op, c.B = "size", b
 			default:
 				tgt := r.Intn(3)
-				if written[b] || tgt == b || (tgt != 0 && written[tgt]) {
+				if tgt == b || (tgt != 0 && written[tgt]) { // the source may have been written already (replay after write)
 					continue
 				}
 				c.Op, c.B, c.T = "replay", b, tgt
